@@ -4,7 +4,8 @@ use crate::trackers::sort::SortAttributesOptions;
 use crate::trackers::spatio_temporal_constraints::SpatioTemporalConstraints;
 use crate::utils::bbox::verif_kani__common::{any_finite, any_valid_ubox};
 use crate::utils::kalman::kalman_2d_box::DIM_2D_BOX_X2;
-use crate::utils::kalman::{KalmanState, CHI2INV95};
+use crate::utils::kalman::KalmanState;
+const GATE5: f32 = 11.070; // 95% chi-square quantile, 5 degrees of freedom (written out)
 
 fn any_kind() -> VisualSortMetricType {
     let t = any_finite();
@@ -185,7 +186,7 @@ fn c12_positional_metric() {
             PositionalMetricType::Mahalanobis => {
                 assert!(r.is_some(), "C12/positional.maha_always_value: Mahalanobis mode always yields a value within reach");
                 if let Some(c) = r {
-                    assert!(c >= 0.0 && (!(d > CHI2INV95[4]) || c == 0.0), "C12/positional.maha_outside_gate_zero: non-negative, and 0 outside the 95% chi-square gate");
+                    assert!(c >= 0.0 && (!(d > GATE5) || c == 0.0), "C12/positional.maha_outside_gate_zero: non-negative, and 0 outside the 95% chi-square gate");
                 }
             }
         }
